@@ -2,7 +2,10 @@ package main
 
 import (
 	"fmt"
+	"go/constant"
+	"go/token"
 	"os"
+	"path/filepath"
 	"sort"
 	"strings"
 	"sync"
@@ -20,6 +23,7 @@ type HarnessSpec struct {
 	UnwindFn         map[string]int
 	MaxSteps         int
 	MaxPaths         int
+	DeadOK           map[string]string // assertion label -> why it is legitimately never evaluated at this tier
 	Params           map[string]int
 	ThoroughParams   map[string]int
 	ReverseMaps      bool
@@ -86,6 +90,8 @@ type HarnessResult struct {
 	Witnesses   []*Violation
 	FeasUnknown int
 	Fallbacks   map[string]int
+	seenFns     map[*ssa.Function]bool
+	DeadAsserts []string
 }
 
 func newHarnessResult(spec *HarnessSpec) *HarnessResult {
@@ -360,6 +366,10 @@ func (in *Interp) runPath(entry *ssa.Function, prefix []int, R *HarnessResult) {
 		R.Reached[l]++
 	}
 	for f, n := range in.funcsSeen {
+		if R.seenFns == nil {
+			R.seenFns = map[*ssa.Function]bool{}
+		}
+		R.seenFns[f] = true
 		name := f.String()
 		if _, ok := R.Funcs[name]; !ok {
 			cnt := 0
@@ -397,4 +407,95 @@ func sortedStr(m map[string]int) []string {
 	}
 	sort.Strings(ks)
 	return ks
+}
+
+// deadAsserts: assertion labels written in harness functions that were entered on some path, but whose
+// obligation was never evaluated on any path (a vacuity guard in addition to the reach witnesses).
+// `assert(label, false)` sites are "must not be reached" markers and are not counted.
+func (R *HarnessResult) deadAsserts(fset *token.FileSet) []string {
+	// owned functions: the harness entry, the drivers it calls directly (harness files only), and their closures
+	owned := map[*ssa.Function]bool{}
+	var entry *ssa.Function
+	for f := range R.seenFns {
+		if f.Name() == R.Spec.Name && f.Parent() == nil {
+			entry = f
+		}
+	}
+	if entry == nil {
+		return nil
+	}
+	inHarnessFile := func(f *ssa.Function) bool {
+		return f.Pos().IsValid() && strings.HasPrefix(filepath.Base(fset.Position(f.Pos()).Filename), "zz_verif_")
+	}
+	owned[entry] = true
+	entryAsserts := 0
+	for _, b := range entry.Blocks {
+		for _, ins := range b.Instrs {
+			if c, ok := ins.(ssa.CallInstruction); ok {
+				if cal := c.Common().StaticCallee(); cal != nil && cal.Name() == "assert" {
+					entryAsserts++
+				}
+			}
+		}
+	}
+	for _, b := range entry.Blocks {
+		for _, ins := range b.Instrs {
+			if c, ok := ins.(ssa.CallInstruction); ok {
+				cal := c.Common().StaticCallee()
+				if cal == nil || !inHarnessFile(cal) || strings.Contains(fset.Position(cal.Pos()).Filename, "zz_verif_tmpl_") {
+					continue
+				}
+				if strings.HasPrefix(cal.Name(), "verifC") || entryAsserts == 0 && len(entry.Blocks) == 1 {
+					owned[cal] = true // the driver a thin entry delegates to
+				}
+			}
+		}
+	}
+	static := map[string]bool{}
+	for f := range R.seenFns {
+		top := f
+		for top.Parent() != nil {
+			top = top.Parent()
+		}
+		if !owned[top] {
+			continue
+		}
+		for _, b := range f.Blocks {
+			for _, ins := range b.Instrs {
+				c, ok := ins.(ssa.CallInstruction)
+				if !ok {
+					continue
+				}
+				cal := c.Common().StaticCallee()
+				if cal == nil || cal.Name() != "assert" || len(c.Common().Args) != 2 {
+					continue
+				}
+				lab, ok := c.Common().Args[0].(*ssa.Const)
+				if !ok || lab.Value == nil {
+					continue
+				}
+				if cond, isC := c.Common().Args[1].(*ssa.Const); isC && cond.Value != nil && !constant.BoolVal(cond.Value) {
+					continue
+				}
+				static[constant.StringVal(lab.Value)] = true
+			}
+		}
+	}
+	var dead []string
+	for l := range static {
+		if _, ok := R.Asserts[l]; ok {
+			continue
+		}
+		hit := false
+		for _, v := range R.Violations {
+			if v.Label == l {
+				hit = true
+			}
+		}
+		if !hit {
+			dead = append(dead, l)
+		}
+	}
+	sort.Strings(dead)
+	return dead
 }
